@@ -314,6 +314,14 @@ func GenMessage(t *rapid.T, o HTTPOpts, sb *[]byte) MsgInfo {
 			for i := 0; i < n; i++ {
 				parts = append(parts, rapid.SampledFrom(toks).Draw(t, "conntok"))
 			}
+			if rapid.IntRange(0, 2).Draw(t, "connlines") == 0 {
+				// the same list spread over several Connection field lines (RFC 7230 3.2.2: equivalent)
+				for _, p := range parts[:len(parts)-1] {
+					hs = append(hs, hdr{"Connection", p})
+				}
+				parts = parts[len(parts)-1:]
+				mi.Classes = append(mi.Classes, "connection-several-field-lines")
+			}
 			v = strings.Join(parts, rapid.SampledFrom([]string{", ", ",", " , "}).Draw(t, "connsep"))
 			mi.Classes = append(mi.Classes, "connection-list")
 		} else {
